@@ -198,6 +198,9 @@ theorem proj_filter_map_mkEv (xs : List ExtBehaviour) (hnd : NodupNames xs) (b :
 
 /-! ## The view of one extension -/
 
+theorem bodyOutB_execBody (xs : List ExtBehaviour) (req : RequestOutcomeClass) :
+    bodyOutB (execBody xs req) = bodyOut xs req := rfl
+
 def resEvs (b : ExtBehaviour) : Trace :=
   match b.beh .hasResult with
   | .panic _ => [mkEv b .hasResult 0 .none]
@@ -294,7 +297,7 @@ theorem proj_execBody (xs : List ExtBehaviour) (hnd : NodupNames xs) (b : ExtBeh
 
 theorem proj_executePlan (xs : List ExtBehaviour) (hnd : NodupNames xs) (b : ExtBehaviour) (hb : b ∈ xs)
     (req : RequestOutcomeClass) : proj b.name (executePlan xs req).1 = viewExec xs b req := by
-  simp only [executePlan, viewExec, didStart_errs_nil, Bool.not_not]
+  simp only [executePlan, executePlanB, bodyOutB_execBody, viewExec, didStart_errs_nil, Bool.not_not]
   by_cases hf : anyFault xs .execStart = true
   · simp only [hf, if_true, proj_append, didStart_evs, proj_map_mkEv xs hnd b hb _ (by simp : Hook.execStart ≠ .resolver),
       proj_finish_started xs hnd b hb _ _ (by simp : Hook.execEnd ≠ .resolver)]
@@ -310,7 +313,7 @@ theorem proj_run (xs : List ExtBehaviour) (hnd : NodupNames xs) (b : ExtBehaviou
     (req : RequestOutcomeClass) : proj b.name (run xs req).1 = view xs b req := by
   have P := fun h (hh : h ≠ Hook.resolver) k o => proj_map_mkEv xs hnd b hb h hh k o
   have PF := fun hs he (hh : he ≠ Hook.resolver) o => proj_finish_started xs hnd b hb hs he hh 0 0 o
-  simp only [run, view, pre, early, proj_append, proj_nil, handleInits_evs, handleInits_errs_nil, didStart_evs,
+  simp only [run, runB, view, pre, early, proj_append, proj_nil, handleInits_evs, handleInits_errs_nil, didStart_evs,
     didStart_errs_nil, finish_errs_nil, Bool.not_not]
   rw [P _ (by simp)]
   by_cases h1 : anyFault xs .init = true
@@ -341,11 +344,11 @@ theorem proj_run (xs : List ExtBehaviour) (hnd : NodupNames xs) (b : ExtBehaviou
     | (by_cases h5 : anyFault xs .valEnd = true
        · simp [h5, proj_nil]
        have h5' : anyFault xs .valEnd = false := by simpa using h5
-       simp only [h5', Bool.false_eq_true, if_false, execute, proj_nil, reduceCtorEq, if_true]
+       simp only [h5', Bool.false_eq_true, if_false, executeB, proj_nil, reduceCtorEq, if_true]
        first
        | done
        | exact congrArg _ (proj_executePlan xs hnd b hb _)
-       | simp [proj_executePlan xs hnd b hb])
+       | (have := proj_executePlan xs hnd b hb; simp only [executePlan] at this; simp [this]))
 
 /-- the ten ways a run can end, as seen by one extension; each with what is then known about the hooks of all
 registered extensions -/
@@ -763,9 +766,9 @@ theorem bodyOut_eq (xs : List ExtBehaviour) (req : RequestOutcomeClass) :
     bodyOut xs req = if req = .variableErr || (execBody xs req).1.any bodyErrEv then .err else .ok := by
   cases req with
   | exec fs =>
-    simp only [bodyOut, execBody, any_be_executeFields]
+    simp only [bodyOut, bodyOutB, execBody, any_be_executeFields]
     by_cases h : (executeFields xs 0 fs).2.1.isEmpty = true <;> simp [h]
-  | _ => simp [bodyOut, execBody]
+  | _ => simp [bodyOut, bodyOutB, execBody]
 
 
 /-! ## The ten ways a run can end, globally -/
@@ -775,6 +778,70 @@ def grp (xs : List ExtBehaviour) (h : Hook) (o : Out) : Trace := xs.map (fun b =
 /-- the finish functions of the extensions whose start hook `hs` returned -/
 def grpF (xs : List ExtBehaviour) (hs he : Hook) (o : Out) : Trace :=
   (xs.filter (fun b => b.beh hs == .ok)).map (fun b => mkEv b he 0 o)
+
+/-- closed form of the log of `runB` (distinct names): the groups of hook calls, in order, with the executor's
+log `ev` and the outcome `out` handed to the execution-finish functions -/
+def script (xs : List ExtBehaviour) (req : RequestOutcomeClass) (ev : Trace) (out : Out) : Trace :=
+  grp xs .init .none ++
+  (if anyFault xs .init then [] else
+   grp xs .parseStart .none ++
+   (if anyFault xs .parseStart then grpF xs .parseStart .parseEnd .err else
+    if req = .syntaxErr then grp xs .parseEnd .err else
+    grp xs .parseEnd .ok ++
+    (if anyFault xs .parseEnd then [] else
+     grp xs .valStart .none ++
+     (if anyFault xs .valStart then grpF xs .valStart .valEnd .err else
+      if req = .validationErr then grp xs .valEnd .err else
+      grp xs .valEnd .ok ++
+      (if anyFault xs .valEnd then [] else
+       if req = .operationErr then [] else
+       grp xs .execStart .none ++
+       (if anyFault xs .execStart then grpF xs .execStart .execEnd .err else
+        ev ++ grp xs .execEnd out ++ xs.flatMap resEvs))))))
+
+theorem runB_trace (xs : List ExtBehaviour) (hnd : NodupNames xs) (req : RequestOutcomeClass) (body : Body) :
+    (runB xs req body).1 = script xs req body.1 (bodyOutB body) := by
+  simp only [runB, script, pre, early, handleInits_evs, handleInits_errs_nil, didStart_evs, didStart_errs_nil,
+    finish_evs, finish_errs_nil, Bool.not_not, didStart_fs _ _ _ hnd, grp, grpF]
+  congr 1
+  by_cases h1 : anyFault xs .init = true
+  · simp [h1]
+  have h1' : anyFault xs .init = false := by simpa using h1
+  simp only [h1', Bool.false_eq_true, if_false]
+  congr 1
+  by_cases h2 : anyFault xs .parseStart = true
+  · simp [h2]
+  have h2' : anyFault xs .parseStart = false := by simpa using h2
+  simp only [h2', Bool.false_eq_true, if_false, filter_ok_of_noFault _ _ h2']
+  cases req with
+  | syntaxErr => simp
+  | validationErr | operationErr | variableErr | exec _ =>
+    simp only [reduceCtorEq, if_false]
+    congr 1
+    by_cases h3 : anyFault xs .parseEnd = true
+    · simp [h3]
+    have h3' : anyFault xs .parseEnd = false := by simpa using h3
+    simp only [h3', Bool.false_eq_true, if_false]
+    congr 1
+    by_cases h4 : anyFault xs .valStart = true
+    · simp [h4]
+    have h4' : anyFault xs .valStart = false := by simpa using h4
+    simp only [h4', Bool.false_eq_true, if_false, filter_ok_of_noFault _ _ h4', reduceCtorEq, if_true]
+    first
+    | (simp; done)
+    | (congr 1
+       by_cases h5 : anyFault xs .valEnd = true
+       · simp [h5]
+       have h5' : anyFault xs .valEnd = false := by simpa using h5
+       simp only [h5', Bool.false_eq_true, if_false, executeB, reduceCtorEq, if_true]
+       first
+       | done
+       | (simp only [executePlanB, didStart_errs_nil, Bool.not_not, didStart_evs, finish_evs,
+            didStart_fs _ _ _ hnd, addExtensionResults_evs]
+          by_cases h6 : anyFault xs .execStart = true
+          · simp [h6]
+          have h6' : anyFault xs .execStart = false := by simpa using h6
+          simp [h6', filter_ok_of_noFault _ _ h6']))
 
 theorem trace_elim (P : Trace → Prop) (xs : List ExtBehaviour) (hnd : NodupNames xs) (req : RequestOutcomeClass)
     (l1 : anyFault xs .init = true → P (grp xs .init .none))
@@ -812,65 +879,9 @@ theorem trace_elim (P : Trace → Prop) (xs : List ExtBehaviour) (hnd : NodupNam
             (grp xs .execStart .none ++ (execBody xs req).1 ++ grp xs .execEnd (bodyOut xs req)
               ++ xs.flatMap resEvs))))))) :
     P (run xs req).1 := by
-  have hrun : (run xs req).1 =
-      grp xs .init .none ++
-      (if anyFault xs .init then [] else
-       grp xs .parseStart .none ++
-       (if anyFault xs .parseStart then grpF xs .parseStart .parseEnd .err else
-        if req = .syntaxErr then grp xs .parseEnd .err else
-        grp xs .parseEnd .ok ++
-        (if anyFault xs .parseEnd then [] else
-         grp xs .valStart .none ++
-         (if anyFault xs .valStart then grpF xs .valStart .valEnd .err else
-          if req = .validationErr then grp xs .valEnd .err else
-          grp xs .valEnd .ok ++
-          (if anyFault xs .valEnd then [] else
-           if req = .operationErr then [] else
-           grp xs .execStart .none ++
-           (if anyFault xs .execStart then grpF xs .execStart .execEnd .err else
-            (execBody xs req).1 ++ grp xs .execEnd (bodyOut xs req) ++ xs.flatMap resEvs)))))) := by
-    simp only [run, pre, early, handleInits_evs, handleInits_errs_nil, didStart_evs, didStart_errs_nil,
-      finish_evs, finish_errs_nil, Bool.not_not, didStart_fs _ _ _ hnd, grp, grpF]
-    congr 1
-    by_cases h1 : anyFault xs .init = true
-    · simp [h1]
-    have h1' : anyFault xs .init = false := by simpa using h1
-    simp only [h1', Bool.false_eq_true, if_false]
-    congr 1
-    by_cases h2 : anyFault xs .parseStart = true
-    · simp [h2]
-    have h2' : anyFault xs .parseStart = false := by simpa using h2
-    simp only [h2', Bool.false_eq_true, if_false, filter_ok_of_noFault _ _ h2']
-    cases req with
-    | syntaxErr => simp
-    | validationErr | operationErr | variableErr | exec _ =>
-      simp only [reduceCtorEq, if_false]
-      congr 1
-      by_cases h3 : anyFault xs .parseEnd = true
-      · simp [h3]
-      have h3' : anyFault xs .parseEnd = false := by simpa using h3
-      simp only [h3', Bool.false_eq_true, if_false]
-      congr 1
-      by_cases h4 : anyFault xs .valStart = true
-      · simp [h4]
-      have h4' : anyFault xs .valStart = false := by simpa using h4
-      simp only [h4', Bool.false_eq_true, if_false, filter_ok_of_noFault _ _ h4', reduceCtorEq, if_true]
-      first
-      | (simp; done)
-      | (congr 1
-         by_cases h5 : anyFault xs .valEnd = true
-         · simp [h5]
-         have h5' : anyFault xs .valEnd = false := by simpa using h5
-         simp only [h5', Bool.false_eq_true, if_false, execute, reduceCtorEq, if_true]
-         first
-         | done
-         | (simp only [executePlan, didStart_errs_nil, Bool.not_not, didStart_evs, finish_evs,
-              didStart_fs _ _ _ hnd, addExtensionResults_evs]
-            by_cases h6 : anyFault xs .execStart = true
-            · simp [h6]
-            have h6' : anyFault xs .execStart = false := by simpa using h6
-            simp [h6', filter_ok_of_noFault _ _ h6']))
+  have hrun : (run xs req).1 = script xs req (execBody xs req).1 (bodyOut xs req) := runB_trace xs hnd req _
   rw [hrun]
+  simp only [script]
   cases h1 : anyFault xs .init
   case true => simpa using l1 h1
   cases h2 : anyFault xs .parseStart
